@@ -28,7 +28,8 @@
     the base files and after every statement of a new file).  That read is an
     op of the body ([OInspect]); it fails -- although every statement
     succeeded -- iff the database holds an object whose definition SQLite
-    accepted and Atlas' inspector cannot parse ([o_insp = false]: a column
+    accepted and Atlas' inspector cannot parse -- or because the read itself
+    is hit by a fault (second component of [fs]) -- ([o_insp = false]: a column
     [varchar(99999999999999999999)] -> "parse size"; a generated column quoted
     with brackets; a partial index written with a lower-case [where]), or iff
     the inspection options are malformed ([--exclude '['] of schema
@@ -256,7 +257,18 @@ Inductive outcome := OOk | ORefused | OFail (m : nat) | ORestoreFail | OInspectF
 Definition pop (fs : list bool) : bool * list bool :=
   match fs with [] => (false, []) | b :: t => (b, t) end.
 
-(** Two fault streams: [fs] is popped by every ExecContext of a body, [rs] by
+(** The faults of the bodies: one stream for the ExecContext calls, one for the
+    reads of the state (a read can fail for reasons that have nothing to do
+    with what the database holds: I/O error, lost connection, cancelled
+    context between the last statement and the inspection). *)
+Definition faults := (list bool * list bool)%type.
+Definition pop_exec (f : faults) : bool * faults :=
+  let '(b, t) := pop (fst f) in (b, (t, snd f)).
+Definition pop_read (f : faults) : bool * faults :=
+  let '(b, t) := pop (snd f) in (b, (fst f, t)).
+Definition no_faults : faults := ([], []).
+
+(** The fault streams: [fs] = (ExecContext calls of a body, reads of a body), [rs] =
     every statement of the RestoreFunc ([true] = this ExecContext fails: I/O
     error, lock, read-only connection ...).  The RestoreFunc stops at its first
     failing statement; the database is emptied by its second one. *)
@@ -276,8 +288,8 @@ Inductive bres := BOk | BFail (m : nat) | BRestoreFail | BInspectFail (m : nat).
 
 (** The statements and reads of the body, in order, until one fails.  A read
     is no event: it does not reach the database. *)
-Fixpoint run_body (b : body) (fs rs : list bool) (d : db)
-  : bres * db * list bool * list bool * list event :=
+Fixpoint run_body (b : body) (fs : faults) (rs : list bool) (d : db)
+  : bres * db * faults * list bool * list event :=
   match b with
   | [] => (BOk, d, fs, rs, [])
   | ORestore :: b' =>
@@ -288,10 +300,11 @@ Fixpoint run_body (b : body) (fs rs : list bool) (d : db)
       else (BRestoreFail, d1, fs, rs1, [ERestore k])
   | OInspect m badopt :: b' =>
       (* if err != nil { return nil, err } -- the deferred restore is what is left to run *)
-      if inspect_fails badopt d then (BInspectFail m, d, fs, rs, [])
-      else run_body b' fs rs d
+      let '(fail, fs1) := pop_read fs in
+      if fail || inspect_fails badopt d then (BInspectFail m, d, fs1, rs, [])
+      else run_body b' fs1 rs d
   | OExec m s :: b' =>
-      let '(fail, fs1) := pop fs in
+      let '(fail, fs1) := pop_exec fs in
       if fail then (BFail m, d, fs1, rs, [EWrite m false])
       else match exec_stmt s d with
            | None => (BFail m, d, fs1, rs, [EWrite m false])
@@ -310,8 +323,8 @@ Fixpoint run_body (b : body) (fs rs : list bool) (d : db)
     variable and a failing restore is silently dropped. *)
 Record sess := mkSess { s_body : body; s_reports : bool }.
 
-Definition run_session (s : sess) (fs rs : list bool) (d : db)
-  : outcome * db * list bool * list bool * list event :=
+Definition run_session (s : sess) (fs : faults) (rs : list bool) (d : db)
+  : outcome * db * faults * list bool * list event :=
   match snapshot d with
   | VClean =>
     let '(r, d1, fs1, rs1, es) := run_body (s_body s) fs rs d in
@@ -333,8 +346,8 @@ Definition decline_of (d : db) : outcome :=
   if unreadable d then OSnapshotFail else ORefused.
 
 (** A command opens its sessions one after the other and stops at the first error. *)
-Fixpoint run_sessions (ss : list sess) (fs rs : list bool) (d : db)
-  : outcome * db * list bool * list bool * list event :=
+Fixpoint run_sessions (ss : list sess) (fs : faults) (rs : list bool) (d : db)
+  : outcome * db * faults * list bool * list event :=
   match ss with
   | [] => (OOk, d, fs, rs, [])
   | b :: ss' =>
@@ -361,10 +374,14 @@ Fixpoint from_last_ckpt (fs : list mfile) : list mfile :=
       if existsb mf_ckpt fs' then from_last_ckpt fs' else f :: fs'
   end.
 
-(** Executor.Replay -> ExecuteN(0) -> Pending (no revisions) -> exec; then
-    [return r.ReadState(ctx)] (also when there was no pending file).  [excl]:
-    the StateReader was built with a malformed Exclude pattern. *)
-Definition replay_body (excl : bool) (dir : mdir) : body := execs (from_last_ckpt dir) ++ [OInspect 0 excl].
+(** Executor.Replay -> ExecuteN(0) -> Pending (no revisions: "first run" ->
+    [e.drv.CheckClean], which for SQLite is one more InspectRealm(ctx, nil),
+    *inside* the session and before the first statement; its error, unless a
+    NotCleanError, ends the replay) -> exec; then [return r.ReadState(ctx)]
+    (also when there was no pending file).  [excl]: the StateReader was built
+    with a malformed Exclude pattern. *)
+Definition replay_body (excl : bool) (dir : mdir) : body :=
+  OInspect 0 false :: execs (from_last_ckpt dir) ++ [OInspect 0 excl].
 Definition replay_sess (excl : bool) (dir : mdir) : sess := mkSess (replay_body excl dir) true.
 
 (** ChangeDetector (latestChange: the latest N files are new; GitChangeDetector:
@@ -473,7 +490,7 @@ Definition is_ok (o : outcome) : bool := match o with OOk => true | _ => false e
 
 (** [changes]: the plan is not empty (otherwise ErrNoPlan, nothing is written). *)
 Definition run_cmd (norm : normalizer) (c : command) (excl : bool) (dir : mdir) (from to : source)
-           (changes : bool) (fs rs : list bool) (d : db) : outcome * db * list event :=
+           (changes : bool) (fs : faults) (rs : list bool) (d : db) : outcome * db * list event :=
   let '(o, d', _, _, es) := run_sessions (sessions_of norm c excl dir from to) fs rs d in
   (o, d', es ++ (if writes_dir c && is_ok o && changes then [EDirWrite] else [])).
 
@@ -513,6 +530,6 @@ Definition ok_event (e : event) : bool :=
   end.
 
 Definition observe (norm : normalizer) (c : command) (excl : bool) (dir : mdir) (from to : source)
-           (changes : bool) (fs rs : list bool) (d : db) : outcome * bool * bool * bool :=
+           (changes : bool) (fs : faults) (rs : list bool) (d : db) : outcome * bool * bool * bool :=
   let '(o, d', es) := run_cmd norm c excl dir from to changes fs rs d in
   (o, db_eqb d d', db_empty d', dir_written es).
